@@ -613,11 +613,144 @@ theorem decParse_decToStr (d : Dec) : decParse (decToStr d) = some d := by
   | inf neg => exact decParseAscii_inf neg
   | nan neg sig p => exact decParseAscii_nan neg sig p
 
-/-! ### `quantize`, `same_quantum` -/
+/-! ### `format(d, "f")`: `Decimal(format(d, "f"))` is `d` renormalised to a non-positive exponent -/
 
-def Dec.isFinite : Dec → Bool
-  | .fin .. => true
-  | _ => false
+/-- what plain notation can carry: a positive exponent is folded into the coefficient -/
+def Dec.renorm : Dec → Dec
+  | .fin neg c e => if e > 0 then .fin neg (c * 10 ^ e.toNat) 0 else .fin neg c e
+  | d => d
+
+theorem Dec.renorm_of_nonpos (neg : Bool) (c : Nat) (e : Int) (h : e ≤ 0) :
+    Dec.renorm (.fin neg c e) = .fin neg c e := by
+  simp [Dec.renorm]; omega
+
+theorem decFormatF_fin (neg : Bool) (c : Nat) (e : Int) : decFormatF (.fin neg c e) =
+    (if e ≥ 0 then
+      if c = 0 then signStr neg ++ ['0'] else signStr neg ++ (pyStrNat c ++ List.replicate e.toNat '0')
+    else
+      if e + ((pyStrNat c).length : Int) ≤ 0 then
+        signStr neg ++ '0' :: '.' :: (List.replicate (-(e + ((pyStrNat c).length : Int))).toNat '0' ++ pyStrNat c)
+      else signStr neg ++ ((pyStrNat c).take (e + ((pyStrNat c).length : Int)).toNat
+            ++ '.' :: (pyStrNat c).drop (e + ((pyStrNat c).length : Int)).toNat)) := rfl
+
+theorem decFormatF_AllOk (neg : Bool) (c : Nat) (e : Int) : AllOk (decFormatF (.fin neg c e)) := by
+  rw [decFormatF_fin]
+  split
+  · split
+    · exact AllOk_append (AllOk_signStr neg) (AllOk_cons (by decide) AllOk_nil)
+    · exact AllOk_append (AllOk_signStr neg) (AllOk_append (AllOk_pyStrNat c) (AllOk_replicate _ (by decide)))
+  · split
+    · exact AllOk_append (AllOk_signStr neg) (AllOk_cons (by decide) (AllOk_cons (by decide)
+        (AllOk_append (AllOk_replicate _ (by decide)) (AllOk_pyStrNat c))))
+    · exact AllOk_append (AllOk_signStr neg) (AllOk_append (AllOk_take _ (AllOk_pyStrNat c))
+        (AllOk_cons (by decide) (AllOk_drop _ (AllOk_pyStrNat c))))
+
+theorem digitsVal_replicate_zero' (k : Nat) : digitsVal (List.replicate k 0) = 0 := by
+  simpa [digitsVal_nil] using digitsVal_replicate_zero k []
+
+theorem decParseAscii_formatF (neg : Bool) (c : Nat) (e : Int) :
+    decParseAscii (decFormatF (.fin neg c e)) = some (Dec.renorm (.fin neg c e)) := by
+  rw [decFormatF_fin]
+  have hds := natDigits_lt c
+  have hne := natDigits_ne_nil c
+  have hval := natDigits_val c
+  have hD : pyStrNat c = (natDigits c).map digitChar := rfl
+  have hlen : (pyStrNat c).length = (natDigits c).length := by simp [hD]
+  generalize natDigits c = ds at *
+  have hlen1 : 1 ≤ ds.length := by
+    cases ds with
+    | nil => exact absurd rfl hne
+    | cons _ _ => simp
+  rw [hlen]
+  split
+  · rename_i he
+    split
+    · -- zero coefficient
+      rename_i hc
+      have : signStr neg ++ ['0'] = signStr neg ++ ([0].map digitChar ++ []) := rfl
+      rw [this, decParseAscii_digits_head neg [0] (by simp) (by simp)]
+      have : lower ([] : Str) = [] := rfl
+      rw [this, List.append_nil, decNumeric_int neg [0] (by simp) (by simp)]
+      subst hc
+      simp only [Dec.renorm]
+      split
+      · simp [digitsVal]
+      · have : e = 0 := by omega
+        subst this; simp [digitsVal]
+    · -- ddd000
+      rename_i hc
+      have hz : pyStrNat c ++ List.replicate e.toNat '0' = (ds ++ List.replicate e.toNat 0).map digitChar := by
+        have hc0 : digitChar 0 = '0' := rfl
+        rw [hD, List.map_append, List.map_replicate, hc0]
+      have hlt : ∀ d ∈ ds ++ List.replicate e.toNat 0, d < 10 := by
+        intro d hd; simp at hd; rcases hd with hd | ⟨_, rfl⟩
+        · exact hds d hd
+        · omega
+      have hne' : ds ++ List.replicate e.toNat 0 ≠ [] := by simp [hne]
+      have : signStr neg ++ (pyStrNat c ++ List.replicate e.toNat '0')
+          = signStr neg ++ ((ds ++ List.replicate e.toNat 0).map digitChar ++ []) := by rw [hz]; simp
+      rw [this, decParseAscii_digits_head neg _ hlt hne']
+      have : lower ([] : Str) = [] := rfl
+      rw [this, List.append_nil, decNumeric_int neg _ hlt hne', digitsVal_append, hval,
+        digitsVal_replicate_zero', List.length_replicate, Nat.add_zero]
+      simp only [Dec.renorm]
+      split
+      · rfl
+      · have : e = 0 := by omega
+        subst this; simp
+  · rename_i he
+    rw [Dec.renorm_of_nonpos neg c e (by omega)]
+    generalize hL : e + (ds.length : Int) = left
+    split
+    · -- 0.000ddd
+      rename_i h1
+      have hz : List.replicate (-left).toNat '0' ++ pyStrNat c
+          = (List.replicate (-left).toNat 0 ++ ds).map digitChar := by
+        have hc0 : digitChar 0 = '0' := rfl
+        rw [hD, List.map_append, List.map_replicate, hc0]
+      have : signStr neg ++ '0' :: '.' :: (List.replicate (-left).toNat '0' ++ pyStrNat c)
+          = signStr neg ++ ([0].map digitChar ++ '.' :: (List.replicate (-left).toNat 0 ++ ds).map digitChar) := by
+        rw [hz]; rfl
+      rw [this, decParseAscii_digits_head neg [0] (by simp) (by simp), lower_point,
+        lower_digits _ (by intro d hd; simp at hd; rcases hd with ⟨_, rfl⟩ | hd; omega; exact hds d hd)]
+      rw [decNumeric_point neg [0] _ (by simp)
+        (by intro d hd; simp at hd; rcases hd with ⟨_, rfl⟩ | hd; omega; exact hds d hd) (Or.inl (by simp))]
+      have hv : digitsVal ([0] ++ (List.replicate (-left).toNat 0 ++ ds)) = c := by
+        have : [0] ++ (List.replicate (-left).toNat 0 ++ ds) = List.replicate ((-left).toNat + 1) 0 ++ ds := by
+          simp [List.replicate_succ]
+        rw [this, digitsVal_replicate_zero, hval]
+      rw [hv]
+      congr 2
+      simp; omega
+    · -- dd.ddd
+      rename_i h1
+      have hk1 : 1 ≤ left.toNat := by omega
+      have hk2 : left.toNat < ds.length := by omega
+      have : signStr neg ++ ((pyStrNat c).take left.toNat ++ '.' :: (pyStrNat c).drop left.toNat)
+          = signStr neg ++ ((ds.take left.toNat).map digitChar ++ '.' :: (ds.drop left.toNat).map digitChar) := by
+        rw [hD]; simp [List.map_take, List.map_drop]
+      have htake : ∀ d ∈ ds.take left.toNat, d < 10 := fun d h => hds d (List.mem_of_mem_take h)
+      have hdrop : ∀ d ∈ ds.drop left.toNat, d < 10 := fun d h => hds d (List.mem_of_mem_drop h)
+      have hne' : ds.take left.toNat ≠ [] := by
+        intro h
+        have := congrArg List.length h
+        rw [List.length_take] at this
+        simp only [List.length_nil] at this
+        omega
+      rw [this, decParseAscii_digits_head neg _ htake hne', lower_point, lower_digits _ hdrop,
+        decNumeric_point neg _ _ htake hdrop (Or.inl hne'), List.take_append_drop, hval]
+      congr 2
+      simp; omega
+
+/-- **`Decimal(format(d, "f"))`** is `d` for every finite decimal with exponent ≤ 0, and `d` rescaled to exponent 0
+    (same numeric value) for a positive exponent -/
+theorem decParse_decFormatF (neg : Bool) (c : Nat) (e : Int) :
+    decParse (decFormatF (.fin neg c e)) = some (Dec.renorm (.fin neg c e)) := by
+  unfold decParse
+  rw [decClean_plain _ (decFormatF_AllOk neg c e)]
+  exact decParseAscii_formatF neg c e
+
+/-! ### `quantize`, `same_quantum` -/
 
 /-- coefficients the default context can hold -/
 def fitsPrec (c : Nat) : Bool := c == 0 || decide (ndigits c ≤ defaultPrec)
@@ -663,31 +796,5 @@ theorem quantize_ok (d d' : Dec) (qe : Int) (h : quantize d qe = .ok d') :
           injection h with h
           refine Or.inl ⟨n, c', h.symm, ?_, rfl⟩
           simp [fitsPrec]; right; omega
-
-/-! ### the quantum `Decimal.__init__` stores -/
-
-theorem quantumOfScale_eq (n : Nat) : Ofx.decParse ('0' :: '.' :: (List.replicate (n - 1) '0' ++ ['1'])) =
-    some (.fin false 1 (-((max n 1 : Nat) : Int))) := by
-  have hform : ('0' :: '.' :: (List.replicate (n - 1) '0' ++ ['1']) : Str)
-      = signStr false ++ ([0].map digitChar ++ '.' :: (List.replicate (n - 1) 0 ++ [1]).map digitChar) := by
-    have h0 : digitChar 0 = '0' := rfl
-    have h1 : digitChar 1 = '1' := rfl
-    simp [signStr, List.map_append, List.map_replicate, h0, h1]
-  have hlt : ∀ d ∈ List.replicate (n - 1) 0 ++ [1], d < 10 := by
-    intro d hd; simp at hd; rcases hd with ⟨_, rfl⟩ | rfl <;> omega
-  unfold decParse
-  rw [decClean_plain]
-  · simp only []
-    rw [hform, decParseAscii_digits_head false [0] (by simp) (by simp), lower_point, lower_digits _ hlt,
-      decNumeric_point false [0] _ (by simp) hlt (Or.inl (by simp))]
-    have hv : digitsVal ([0] ++ (List.replicate (n - 1) 0 ++ [1])) = 1 := by
-      have : [0] ++ (List.replicate (n - 1) 0 ++ [1]) = List.replicate (n - 1 + 1) 0 ++ [1] := by
-        simp [List.replicate_succ]
-      rw [this, digitsVal_replicate_zero]; rfl
-    rw [hv]
-    congr 2
-    simp; omega
-  · exact AllOk_cons (by decide) (AllOk_cons (by decide)
-      (AllOk_append (AllOk_replicate _ (by decide)) (AllOk_cons (by decide) AllOk_nil)))
 
 end Ofx
